@@ -752,13 +752,12 @@ func runKMount(c *core.Case, variant string, k int) {
 		c.Inconclusive("SQL child: " + err.Error())
 		return
 	}
-	defer wproc.stop()
+	defer func() { wproc.stop() }()
 	w, err := wproc.open(filepath.Join(P.MountDir(), "db"), false)
 	if err != nil {
 		fail("open", "cannot open the database through the mount: "+err.Error(), nil)
 		return
 	}
-	defer w.close()
 	chain := &ltxChain{dir: filepath.Join(mon.DBDir(P.Node, "db"), "ltx")}
 
 	inTx := false
@@ -958,6 +957,74 @@ func runKMount(c *core.Case, variant string, k int) {
 		default:
 			q = fmt.Sprintf("INSERT INTO %s(id,k,v) VALUES(%d,%d,zeroblob(%d))", t, nextID[t], step, c.Rng.IntN(5000))
 			nextID[t]++
+		}
+		if !inTx && q != "COMMIT" && q != "ROLLBACK" && step > 4 && c.Rng.IntN(14) == 0 {
+			// The application process dies in the middle of a transaction (SIGKILL:
+			// descriptors closed by the kernel, hot journal or uncommitted frames
+			// left) and a new process opens the database: SQLite's own recovery
+			// runs through the mount. Nothing of the dead transaction may show.
+			h0, err := w.contentHash()
+			if err != nil {
+				fail("read-error", err.Error(), nil)
+				return
+			}
+			img0 := chain.img.Clone()
+			pos0 := chain.pos
+			_ = w.exec("BEGIN IMMEDIATE")
+			for i := 0; i < 2+c.Rng.IntN(4); i++ {
+				_ = w.exec(fmt.Sprintf("INSERT INTO %s(id,k,v) VALUES(%d,%d,randomblob(%d))", t, 5000000+step*100+i, step, 500+c.Rng.IntN(30000)))
+			}
+			_ = w.exec(fmt.Sprintf("UPDATE %s SET k=k+1", t))
+			wproc.killNow()
+			wproc.stop()
+			hist = append(hist, "application process killed inside a transaction; a new one opens the database")
+			if wproc, err = startSQLProc(); err != nil {
+				c.Inconclusive("SQL child: " + err.Error())
+				return
+			}
+			if w, err = wproc.open(filepath.Join(P.MountDir(), "db"), false); err != nil {
+				fail("open-after-client-crash", err.Error(), nil)
+				return
+			}
+			if curMode != "wal" {
+				_, _ = w.queryStringOrExec("PRAGMA journal_mode=" + curMode)
+			}
+			if smallCache {
+				_ = w.exec("PRAGMA cache_size=6")
+			}
+			h1, err := w.contentHash()
+			if healthViolations(c, P.Node, "recovery by a new client", detail(nil)) {
+				return
+			}
+			if err != nil {
+				fail("read-after-client-crash", fmt.Sprintf("the new client cannot read the database after the old one died mid-transaction: %v", err), nil)
+				return
+			}
+			if h1 != h0 {
+				fail("client-crash-changed-content", fmt.Sprintf("the old client died inside an uncommitted transaction; the new client reads %s, before the transaction the content was %s", h1, h0), nil)
+				return
+			}
+			if _, prob := chain.advance(); prob != "" {
+				fail("ltx-chain", "after recovery by a new client: "+prob, nil)
+				return
+			}
+			if chain.pos.TXID > pos0.TXID+1 {
+				fail("client-crash-published", fmt.Sprintf("an uncommitted transaction of a dead client moved the position %s -> %s", pos0, chain.pos), nil)
+				return
+			}
+			if d := chain.img.Diff(img0); d != "" {
+				// free pages SQLite did not journal may differ in bytes; the content must not
+				if _, integ, err := plainHash(c.Dir, chain.img, "cc"); err != nil || integ != "ok" {
+					fail("client-crash-changed-image", fmt.Sprintf("after a dead client's transaction was rolled back the image at %s differs from the image before (%s) and fails integrity_check: %q %v", chain.pos, d, integ, err), nil)
+					return
+				}
+				c.Count("kmount_client_crash_image_bytes_differ", 1)
+			}
+			if mon.PosOf(P.Node, "db") != chain.pos {
+				fail("position", fmt.Sprintf("node reports %s, newest transaction file ends at %s", mon.PosOf(P.Node, "db"), chain.pos), nil)
+				return
+			}
+			c.Count("kmount_client_crashes", 1)
 		}
 		if inTx && q != "BEGIN IMMEDIATE" {
 			must = false
